@@ -662,6 +662,23 @@ func (g *G) genRevalRace(id string) *History {
 func (g *G) genSIE(id string) *History {
 	h := &History{ID: id, Prop: g.prop, Class: "sie", Backend: pick(g, "mem", "mem", "fs"), Logger: "discard"}
 	url := "http://a.test/e"
+	if g.chance(0.12) {
+		// a validation that STARTS while the response is fresh (forced by the request) and FAILS when it is stale:
+		// what applies at the instant of the failure decides (must-revalidate forbids the stale response then)
+		L := pick(g, int64(10), 20)
+		cc := "max-age=" + strconv.FormatInt(L, 10) + pick(g, ", must-revalidate", ", must-revalidate", "") + pick(g, ", stale-if-error=60", "")
+		h.Ops = append(h.Ops, Op{Op: "req", AtNs: 0, Method: "GET", URL: url, Replies: []Reply{{Status: 200, BodyFail: -1, Body: "e0",
+			Hdr: Hdr{{"Date", dateAt(0, 0)}, {"Cache-Control", cc}, {"Etag", `"e"`}}}}})
+		at := (L - pick(g, int64(1), 2, 5)) * sec
+		delay := pick(g, int64(0), 3*sec, 5*sec, 8*sec)
+		rcc := pick(g, "max-age=0", "max-age=5", "max-age=0, stale-if-error=60", "no-cache")
+		rp := Reply{Status: pick(g, 500, 503), Hdr: Hdr{{"Date", dateAt(at+delay, 0)}}, Body: "err", BodyFail: -1, DelayNs: delay}
+		if g.chance(0.3) {
+			rp = Reply{Err: true, BodyFail: -1, DelayNs: delay}
+		}
+		h.Ops = append(h.Ops, Op{Op: "req", AtNs: at, Method: "GET", URL: url, Hdr: Hdr{{"Cache-Control", rcc}}, Replies: []Reply{rp}})
+		return h
+	}
 	L := pick(g, int64(5), 10, 60)
 	N := pick(g, int64(5), 20, 100)
 	cc := "max-age=" + strconv.FormatInt(L, 10)
